@@ -47,6 +47,7 @@ class ModSpec:
         self.raw_pre = []         # raw lines emitted at module start [(lineno,text)]
         self.raw_post = []
         self.no_uses = False
+        self.keep_spawn = False
         self.drop_uses = []       # regexes of `use` items to drop
         self.renames = []         # (regex, repl) R9-style textual renames
 
@@ -112,6 +113,8 @@ def parse_spec(path):
             for tok in parts[3:]:
                 if tok == "nouses":
                     cur_mod.no_uses = True
+                if tok == "keepspawn":
+                    cur_mod.keep_spawn = True
             cur_fn = None
             section = None
         elif s.startswith("@dropuse"):
@@ -220,9 +223,9 @@ def missing_helpers(compile_errors):
 _extract_cache = {}
 
 
-def extract(relfile):
+def extract(relfile, keep_spawn=False):
     full = os.path.join(REPO, relfile)
-    key = (full, os.path.getmtime(full), os.path.getsize(full), os.environ.get("VX_INLINE", ""))
+    key = (full, os.path.getmtime(full), os.path.getsize(full), os.environ.get("VX_INLINE", ""), keep_spawn)
     if key in _extract_cache:
         return _extract_cache[key]
     if not os.path.exists(EXTRACT):
@@ -239,7 +242,11 @@ def extract(relfile):
         target = os.path.join(tmpdir, os.path.basename(full))
         open(target, "wb").write(pre.stdout)
     try:
-        p = subprocess.run([EXTRACT, target], capture_output=True, text=True)
+        env = dict(os.environ)
+        env.pop("VX_KEEP_SPAWN", None)
+        if keep_spawn:
+            env["VX_KEEP_SPAWN"] = "1"   # module flag `keepspawn`: R5 does not elide thread::spawn (the unit renames it to a stub)
+        p = subprocess.run([EXTRACT, target], capture_output=True, text=True, env=env)
     finally:
         if tmpdir:
             shutil.rmtree(tmpdir, ignore_errors=True)
@@ -319,7 +326,11 @@ def emit_range(b, d, relfile, a, z, inserts, renames):
         if y > x:
             t = src[x:y].decode("utf-8")
             for rx, rp in renames:
-                t2 = re.sub(rx, rp, t)
+                # a match that spans lines is padded with the newlines it loses, so later lines keep their numbers
+                def _pad(m, rp=rp):
+                    e = m.expand(rp)
+                    return e + "\n" * max(0, m.group(0).count("\n") - e.count("\n"))
+                t2 = re.sub(rx, _pad, t)
                 if t2 != t:
                     b.rule_counts["R9"] = b.rule_counts.get("R9", 0) + len(re.findall(rx, t))
                     t = t2
@@ -334,6 +345,7 @@ def emit_range(b, d, relfile, a, z, inserts, renames):
             put_src(cur, e["start"])
             # R6 loops without a %r6 directive get the default measure of the generated scan loop
             etxt = re.sub(r"/\*@R6INV:\d+\*/", "#[verus_spec(invariant vx_i <= vx_s@.len(), decreases vx_s@.len() - vx_i)] ", e["text"])
+            etxt = re.sub(r"/\*@R6RINV:\d+\*/", "#[verus_spec(invariant vx_i <= vx_s@.len(), decreases vx_i)] ", etxt)
             b.add(etxt, ("edit", e["rule"], relfile, e["line"]))
             b.rule_counts[e["rule"]] = b.rule_counts.get(e["rule"], 0) + 1
             b.rule_log.append({"rule": e["rule"], "file": relfile, "line": e["line"], "old": e["old"], "new": e["text"]})
@@ -389,7 +401,7 @@ def build_unit(u, outpath, probe_fn=None, drop_fns=()):
         for lineno, t in m.raw_pre:
             b.add(t + "\n", ("spec", u.specfile, lineno, None, []))
         if m.file:
-            d = dict(extract(m.file))
+            d = dict(extract(m.file, m.keep_spawn))
             d["edits"] = [dict(e) for e in d["edits"]]
             items = d["items"]
             src = d["src"]
@@ -707,12 +719,12 @@ def fn_inserts(u, m, d, it, info, used_fns, probe_fn):
                 info["clauses"].append({"file": fs.specfile, "fn": full, "spec_line": lineno, "text": t.strip(), "props": clause_props(t, fs.props), "where": "closure"})
     # R6-generated loops: replace the placeholder comment inside edit text
     for n, sec in fs.r6.items():
-        tag = "/*@R6INV:%d*/" % n
         found = False
-        for e in d["edits"]:
-            if e["start"] >= it["start"] and e["end"] <= it["end"] and tag in e["text"]:
-                e["text"] = e["text"].replace(tag, "#[verus_spec(" + spec_lines_to_text(sec).strip() + ")] ")
-                found = True
+        for tag in ("/*@R6INV:%d*/" % n, "/*@R6RINV:%d*/" % n):
+            for e in d["edits"]:
+                if e["start"] >= it["start"] and e["end"] <= it["end"] and tag in e["text"]:
+                    e["text"] = e["text"].replace(tag, "#[verus_spec(" + spec_lines_to_text(sec).strip() + ")] ")
+                    found = True
         if not found:
             raise Undecided("anchor lost (R6 loop %d in %s)" % (n, full))
         for lineno, t in sec:
